@@ -1,5 +1,6 @@
 import Victron.Basic.Wire
 import Victron.Model.Proto
+import Victron.Model.FileLog
 /-
   Line-protocol driver for the Proto cone (C01–C06, C18): one scenario per line.
     P <cfg> <init> <replies> <wfail> <rfail> <ffail> <calls>
@@ -70,6 +71,9 @@ def step (line : String) : String :=
   | ["LI", b] => match parseHex b with
     | some b => (leInt b).render toString
     | none => "bad-op"
+  | ["FL", prev, ls] => match (if prev = "-" then some [] else parseHex prev), (splitList ls ",").mapM parseHex with
+    | some prev, some ls => hexStr (FileLog.close prev ls)
+    | _, _ => "bad-op"
   | ["CK", c, b] => match parseHexNat c, parseHex b with
     | some c, some b => toString (checksum c b)
     | _, _ => "bad-op"
